@@ -69,20 +69,42 @@ class Fixture:
         if self.trees[2].branch.repository.user_url != t1.branch.repository.user_url:
             raise AssertionError("branches do not share the repository")
         self.repo_url = t1.branch.repository.user_url
-        self.cur = {1: dict(tree0), 2: dict(tree0)}
 
-    def set_wt(self, b, target, cur):
-        """Make the working tree of branch b hold exactly `target` (abstract tree), `cur` being what it holds now."""
+    def real_wt(self, b):
+        """What the working tree of branch b holds now (versioned entries as found on disk)."""
+        tree = self.trees[b]
+        out = {}
+        with tree.lock_read():
+            for path, ie in tree.iter_entries_by_dir():
+                if path == "":
+                    continue
+                par = ie.parent_id.decode()
+                ap = tree.abspath(path)
+                if ie.kind == "file":
+                    with open(ap) as f:
+                        c = f.read().strip()
+                    ex = bool(os.stat(ap).st_mode & 0o100)
+                else:
+                    c, ex = "-", False
+                out[ie.file_id.decode()[3:]] = {"parent": par[3:] if par.startswith("id-") else "R", "name": ie.name, "kind": ie.kind,
+                                                "exec": ex, "content": c}
+        return out
+
+    def set_wt(self, b, target, cur=None):
+        """Make the working tree of branch b hold exactly `target` (abstract tree): explicit contents, whatever it holds now."""
         tree = self.trees[b]
         base = tree.basedir
+        if cur is None:
+            cur = self.real_wt(b)
         with tree.lock_write():
             if DIR not in cur:
                 os.mkdir(os.path.join(base, target[DIR]["name"]))
                 tree.add([target[DIR]["name"]], ids=[fid(DIR)])
             elif cur[DIR]["name"] != target[DIR]["name"]:
                 tree.rename_one(cur[DIR]["name"], target[DIR]["name"])
-            mid = dict(cur)
-            mid[DIR] = target[DIR]
+        mid = dict(cur)
+        mid[DIR] = target[DIR]
+        with tree.lock_write():
             for i in sorted((set(cur) | set(target)) - {DIR}):
                 if i in cur and i not in target:
                     tree.remove([rel_path(mid, i)], keep_files=False, force=True)
@@ -162,13 +184,14 @@ def replay(sub, chunk):
                     tree.commit("m", rev_id=rid(s["r"]), timestamp=1000000000 + s["r"], timezone=0, committer="C <c@e.com>")
                 elif a == "pull":
                     tree.pull(fx.trees[3 - b].branch)
-                    fx.cur[b] = dict(st["wt"][b])
+                    if fx.real_wt(b) != st["wt"][b]:
+                        sub.drift("working tree after pull differs from the tip's tree", {"format": fmt, "calls": calls})
+                        fx.set_wt(b, st["wt"][b])
                 else:
                     if a == "merge":
                         with tree.lock_write():
                             tree.set_parent_ids([rid(st["tip"][b]), rid(s["r"])])
-                    fx.set_wt(b, st["wt"][b], fx.cur[b])
-                    fx.cur[b] = dict(st["wt"][b])
+                    fx.set_wt(b, st["wt"][b])
             last = beh[-1][1]
             n = len(last["P"])
             repo = _r.Repository.open(fx.repo_url)
